@@ -30,9 +30,9 @@ func (refmux) Runs(tier string) int64 {
 
 func (refmux) Meta() core.EngineMeta {
 	return core.EngineMeta{
-		Rule: "A random stream model (1..8 PIDs: PAT, PMT PIDs, ES PIDs with bounded and unbounded PES, SI PIDs 0x10/0x11/0x12/0x14; PSI units of 1..N sections over 1..6 packets; every unit carries a unique tag) is packetised by the independent reference multiplexer with seeded chunk sizes (1..184, 1-byte first/last chunks), adaptation-field stuffing or trailing 0xFF, pointer_field 0..17, and merged by the seeded multiplex scheduler (uniform/bursty/starvation/reverse); the real Demuxer reads it through a position-tracking SimReader. Distinct = abstract fingerprint: multiset of (unit kind, packets-per-unit class, first/last chunk class, pointer class, sections-per-unit, trailing-stuffing class) plus PID count and merge mode; non-trivial = at least two PIDs interleaved or a multi-packet unit.",
-		Real: []string{"astits.Demuxer and everything below it"},
-		Stub: []string{"refts reference multiplexer (PES/PSI encoders, packetiser, scheduler)", "SimReader (fault-free, position tracking)", "expected-output model (one datum per PES / per delivered table section)"},
+		Rule:       "A random stream model (1..8 PIDs: PAT, PMT PIDs, ES PIDs with bounded and unbounded PES, SI PIDs 0x10/0x11/0x12/0x14; PSI units of 1..N sections over 1..6 packets; every unit carries a unique tag) is packetised by the independent reference multiplexer with seeded chunk sizes (1..184, 1-byte first/last chunks), adaptation-field stuffing or trailing 0xFF, pointer_field 0..17, and merged by the seeded multiplex scheduler (uniform/bursty/starvation/reverse); the real Demuxer reads it through a position-tracking SimReader. Distinct = abstract fingerprint: multiset of (unit kind, packets-per-unit class, first/last chunk class, pointer class, sections-per-unit, trailing-stuffing class) plus PID count and merge mode; non-trivial = at least two PIDs interleaved or a multi-packet unit.",
+		Real:       []string{"astits.Demuxer and everything below it"},
+		Stub:       []string{"refts reference multiplexer (PES/PSI encoders, packetiser, scheduler)", "SimReader (fault-free, position tracking)", "expected-output model (one datum per PES / per delivered table section)"},
 		FaultKinds: []string{"chunk<184", "one-byte-chunk", "multi-section", "pointer>0", "exact-fit", "interleaved"},
 		Assumptions: []string{
 			"well-formed means: every section of a unit starts in the unit's first packet (a section starting later needs its own payload_unit_start packet); the PAT is delivered before the PMT PIDs it announces carry packets; PES payload bytes are in 0x02..0xFE",
